@@ -722,6 +722,64 @@ def ob_info_subdir():
     return h
 
 
+CMD_POOL = [
+    {'type': 'target', 'target': 'fresh', 'operation': 'target_add', 'sources': ['n.c'], 'subdir': '', 'target_type': 'executable'},
+    {'type': 'target', 'target': 'foo', 'operation': 'src_add', 'sources': ['m.c']},
+    {'type': 'target', 'target': 'foo', 'operation': 'src_rm', 'sources': ['foo.c']},
+    {'type': 'kwargs', 'function': 'project', 'id': '/', 'operation': 'set', 'kwargs': {'version': '2.0'}},
+    {'type': 'target', 'target': 'foo', 'operation': 'info'},
+    {'type': 'target', 'target': 'foo', 'operation': 'src_add', 'sources': ['foo.c']},
+]
+
+
+def ob_command_list():
+    """`meson rewrite command <json>`: 2-3 commands of a pool (add a target, add / remove a source, kwargs set on project(), info, add an existing source) through
+    the real `rewriter.run()` - its loop applies and RE-ANALYSES between commands. The result is what the same commands give when each is its own invocation:
+    the same file text (so nothing is applied twice and nothing is lost), which still parses, with every target defined once"""
+    def h():
+        import os, json, argparse
+        n = 2 + choose(2, 'commands')
+        picks = []
+        for i in range(n):
+            k = choose(len(CMD_POOL), 'command %d' % i)
+            picks.append(k)
+        assume(len(set(picks)) == len(picks))
+        base = "project('p', 'c', version : '1.0')\nexecutable('foo', 'foo.c', 'bar.c')\n"
+
+        def run_cmds(d, cmds):
+            import io, contextlib
+            o = argparse.Namespace(sourcedir=d, skip=False, verbose=False, type='command', json=json.dumps(cmds))
+            with contextlib.redirect_stdout(io.StringIO()), contextlib.redirect_stderr(io.StringIO()):
+                return R.run(o)
+
+        def fresh_dir():
+            d = _tdir()
+            with open(os.path.join(d, 'meson.build'), 'w') as f: f.write(base)
+            return d
+        d1 = fresh_dir()
+        ok1 = True
+        try: run_cmds(d1, [CMD_POOL[k] for k in picks])
+        except Exception: ok1 = False
+        t1 = open(os.path.join(d1, 'meson.build')).read()
+        d2 = fresh_dir()
+        ok2 = True
+        for k in picks:
+            try: run_cmds(d2, [CMD_POOL[k]])
+            except Exception: ok2 = False
+        t2 = open(os.path.join(d2, 'meson.build')).read()
+        check(ok1 == ok2, 'a command list fails iff one of its commands fails on its own')
+        if ok1 and ok2:
+            check(t1 == t2, 'a command list gives the file that the same commands give one invocation at a time')
+        try:
+            mp.Parser(t1, 'meson.build').parse()
+        except mp.ParseException:
+            check(False, 'the edited file still parses'); return
+        names = sorted(_all_targets(d1))
+        check(len(names) == len(set(names)) and t1.count("executable('fresh'") <= 1, 'every target is defined once')
+        cover('done')
+    return h
+
+
 def _renv(d):
     import tempfile, argparse, atexit, shutil
     from mesonbuild import environment, cmdline
@@ -810,6 +868,8 @@ def obligations(tier):
     out.append(Obligation('target-add-rm', ob_target_add_rm(), dict(operations='add target | remove target | add then remove', file_end=repr(TAILS), statement_forms=len(BAR_FORMS), position='first | last target'), labels=('added', 'removed', 'restored')))
     out.append(Obligation('target-edit', ob_target_edit(), dict(shapes='%d ways foo uses the shared list x %d ways bar does' % (len(FOO_USES), len(BAR_USES)), operations='add new / add existing / rm shared / rm own',
                           files='real files in a scratch directory (pathlib resolves them): names concrete'), labels=('edited', 'refused-or-nothing-to-do'), path_timeout=300))
+    out.append(Obligation('command-list', ob_command_list(), dict(real='rewriter.run() with type=command (process, apply_changes, re-analysis between commands) on real files', commands='2-3 distinct ones of: target_add, src_add, src_rm, kwargs set on project(), info, src_add of an existing source'),
+                          labels=('done',), max_paths=100000))
     out.append(Obligation('info-subdir', ob_info_subdir(), dict(real='Rewriter (analyze, target info / src_add / src_rm, apply_changes) on real files; the real Interpreter as the oracle', layout="root: common = files('common.c'), subdir('sub'); sub: local = files('local.c'), executable('subprog', ...)",
                           sources='6 spellings: files() of the parent / own directory, strings, +, a variable', operation='info | src_add | src_rm | src_add of an existing file'), labels=('edited', 'unchanged'), max_paths=100000))
     for op in ('set', 'delete', 'add', 'remove'):
